@@ -68,3 +68,6 @@ SPEC = {'id': 'C15',
                  'WebRTCPeer.Close does not block (pion PeerConnection.Close / DataChannel.Close return)']}
 
 SPEC['thorough_passes'] = 5  # the thorough tier runs the whole harness under this many consecutive seeds
+
+SPEC['rule'] += (' ' +
+    "Added after rounds four and five: End() while a rendezvous exchange is in flight that then fails with one of seven error classes (no further exchange may follow); half of the ICE cases use the constructors without an event receiver; a broker that accepts the poll and never answers (child process with the real rendezvous method and transport: Close returns at the transport's 15 s response-header timeout); more blank -ice entries in the binary test.")
